@@ -10,7 +10,7 @@ import numpy as np
 from harness import common as C
 
 HEADER = """From Coq Require Import List ZArith QArith Bool. Import ListNotations.
-From TLV Require Import Base.Ops Model.Prox Model.ProxDispatch Corr.C12.
+From TLV Require Import Base.Ops Base.Tensor Model.Prox Model.Constraints Model.ProxDispatch Corr.C12.
 Local Open Scope nat_scope."""
 EP = "tensorly.tenalg.proximal."
 
@@ -95,7 +95,7 @@ def svd_tape(a):
 def can_dispatch(name, par):
     """proximal_operator reaches the operator: flag constraints (parameter None -> True) and truthy scalar parameters
     (a falsy parameter 0 / 0.0 means "no constraint"); array thresholds, decreasing=True and the SVD operators are direct only"""
-    if name in ("soft_arr", "monotone_dec", "svt", "procrustes", "identity") or isinstance(par, np.ndarray):
+    if name in ("soft_arr", "monotone_dec", "svt", "procrustes", "identity", "reject") or isinstance(par, np.ndarray):
         return False
     return par is None or bool(par)
 
@@ -523,7 +523,7 @@ def gen_spec_route(rng, name, par, a, kind, scale):
         return "identity", None, {"specs": [[name, rng.choice(["dict", "scalar"]), 0, par]], "n_const": None, "order": 0}
     n_const = rng.choice([1, 2, 3, 4])
     mode = rng.randrange(n_const)
-    style = rng.choice(["dict", "list", "scalar"]) if n_const == 1 else rng.choice(["dict", "list"])
+    style = rng.choice(["dict", "list", "scalar"]) if n_const == 1 else rng.choice(["dict", "list", "dict", "list", "scalar"])
     specs = [[name, style, mode, par]]
     second = None
     if n_const > 1 and style != "scalar" and rng.random() < 0.6:
@@ -553,6 +553,18 @@ def gen_spec_route(rng, name, par, a, kind, scale):
         sp.append(bool(sp[1] == "dict" and rng.random() < 0.3))
     order = rng.randrange(n_const)
     route = {"specs": specs, "n_const": n_const, "order": order}
+    if rng.random() < 0.06:
+        # a request validate_constraints must refuse: a second constraint on an occupied mode (also through the negative alias of
+        # its number) or a dictionary key outside [-n_const, n_const)
+        name2 = rng.choice([x for x in DISPATCHABLE if x != name and all(sp[0] != x for sp in specs)])
+        par2 = gen_par(rng, name2, a, kind, scale)
+        if can_dispatch(name2, par2):
+            how = rng.choice(["same_mode", "out_of_range"]) if style != "scalar" else "same_mode"
+            if how == "same_mode":
+                specs.append([name2, "dict", mode, par2, [], bool(rng.random() < 0.5)])
+            else:
+                specs.append([name2, "dict", rng.choice([n_const, n_const + 1]), par2, [], False])
+            return "reject", None, route
     if style == "scalar" or order == mode:
         return name, par, route
     for i, pi in others:
@@ -626,29 +638,37 @@ KW_ORDER = ["non_negative", "l1_reg", "l2_reg", "l2_square_reg", "unimodality", 
             "soft_sparsity", "smoothness", "monotonicity", "hard_sparsity"]     # registration order of validate_constraints
 
 
+KIND = {"non_negative": "KNonNeg", "l1_reg": "KL1", "l2_reg": "KL2", "l2_square_reg": "KL2sq", "unimodality": "KUnimodal", "normalize": "KNormalize",
+        "simplex": "KSimplex", "normalized_sparsity": "KNormSparsity", "soft_sparsity": "KSoftSparsity", "smoothness": "KSmooth",
+        "monotonicity": "KMonotone", "hard_sparsity": "KHardSparsity"}
+
+
 def routed_lit(name, par, a, route):
-    """the keyword arguments as written -> ORouted literal; the Coq model of validate_constraints selects operator and parameter"""
+    """the keyword arguments exactly as written (raw Python int keys, also negative / colliding / out-of-range ones) -> ORouted / ORejected
+    literal; C11's Coq model of validate_constraints (Model/Constraints.zvalidate) selects operator and parameter or says 'raises'"""
     flat = [float(x) for x in np.asarray(a, float).reshape(-1)]
     def qq(p):
         return C.q(1) if p is None else C.q(float(p) if not isinstance(p, (int, np.integer)) else int(p))
     specs = []
-    for spec in route["specs"]:
-        nm, style, mode, p0 = spec[:4]
-        entries = [(int(mode), p0)] + [(int(m), pm) for m, pm in (spec[4] if len(spec) > 4 else [])]
-        if style == "dict":
-            body = "(CDict [" + "; ".join(f"({m}%nat, {qq(pm)})" for m, pm in entries) + "])"
-        elif style == "list":
-            d = dict(entries)
-            body = "(CList [" + "; ".join(f"(Some {qq(d[i])})" if i in d else "None" for i in range(route["n_const"])) + "])"
+    for kw, val in spec_kwargs(route).items():
+        if kw in ("n_const", "order"):
+            continue
+        if isinstance(val, dict):
+            body = "(ZDict [" + "; ".join(f"({C.z(m)}, {qq(None if v is True else v)})" for m, v in val.items()) + "])"
+        elif isinstance(val, list):
+            body = "(ZList [" + "; ".join("None" if v is None else f"(Some {qq(None if v is True else v)})" for v in val) + "])"
         else:
-            body = f"(CScalar {qq(p0)})"
-        specs.append(f"({KW_ORDER.index(KW[nm])}%nat, {body})")
+            body = f"(ZScalar {qq(None if val is True else val)})"
+        specs.append(f"({KIND[kw]}, {body})")
+    head = f"{int(route['n_const'])}%nat {int(route['order'])}%nat [" + "; ".join(specs) + "]"
+    if name == "reject":
+        return f"(ORejected {head})"
     aux = Fraction(0)
     if name == "l2":
         aux = sqrt_q(fr_sumsq(flat))
     elif name == "normalized_sparsity":
         aux = sqrt_q(fr_sumsq(model_hard(flat, int(par))))
-    return f"(ORouted {int(route['n_const'])}%nat {int(route['order'])}%nat [" + "; ".join(specs) + f"] {C.q(aux)})"
+    return f"(ORouted {head} {C.q(aux)})"
 
 
 def op_lit(name, par, a, tape=None, route=None):
@@ -737,6 +757,18 @@ def evaluate(chk, name, par, a, route, kind, klass, rng, cases, meta):
     chk.count(key=(name, a.shape, klass, kind, rl), nontrivial=a.size > 1 and bool(np.any(a != 0)))
     inputs = {"op": name, "tensor": a, "param": par, "route": route}
     ep = entry_point(name, route)
+    if name == "reject":
+        # the request is refused by validate_constraints: compared with the Coq model only (ORejected: it raised, ORouted: it returned)
+        if (st == "reject" and str(out).startswith("ValueError")) or st == "ok":
+            cid = len(cases); nrows = a.shape[0]
+            lit = routed_lit("reject" if st == "reject" else "identity", None, a, route)
+            outv = a if st == "reject" else np.asarray(out)
+            if outv.size == a.size and np.all(np.isfinite(outv)):
+                cases.append(f"({cid}%nat, {lit}, {rows_lit(a, nrows)}, {rows_lit(outv, nrows)}, {C.q(0)}, {C.q(0)})")
+                meta.append(inputs)
+        else:
+            chk.finding(ep, inputs, f"proximal_operator crashed instead of refusing the request: {out}", "reject_clean")
+        return
     if st != "ok":
         chk.finding(ep, inputs, f"the operator raised on a valid input: {out}", name + "_feasible")
         return
@@ -882,6 +914,8 @@ def neighbourhood_search(chk, inp, rng):
     """a model/implementation disagreement: evaluate the property predicates on the case itself (more rounds) and on rescaled /
     sign-flipped / permuted neighbours, to turn the disagreement into a concrete failing input"""
     name, par, a, route = inp["op"], inp["param"], np.asarray(inp["tensor"], float), inp["route"]
+    if name == "reject":
+        return
     ep = entry_point(name, route)
     neigh = [a, -a, a[::-1].copy(), a * 0.5, np.abs(a), -np.abs(a)]
     for b in neigh:
